@@ -688,18 +688,31 @@ Section WithHash.
   Definition outer_store (t : trie) : store :=
     match t_db t with DPlain s => s | DScratch sc => wrapped sc end.
 
+  (* the database the block's ScratchDB wraps: the trie's own store, or — for a block opened on a
+     batch trie (nested squash_changes) — what reads through that trie's scratch layer see *)
+  Definition batch_base (outer : trie) : store :=
+    match t_db outer with DPlain s => s | DScratch sc => store_of (read_view sc) end.
+
   (* entering the with-block: the trie handed to the block *)
   Definition batch_begin (outer : trie) : trie :=
-    mkTrie (DScratch (scratch_new (outer_store outer))) (t_root outer) true
+    mkTrie (DScratch (scratch_new (batch_base outer))) (t_root outer) true
            (if t_prune outer then t_refc outer else []) None.
 
   Definition inner_scratch (inner : trie) : scratch :=
     match t_db inner with DScratch sc => sc | DPlain s => scratch_new s end.
 
   (* the block exited normally *)
+  (* ScratchDB.batch_commit's else-branch: into a plain store (a write may fail), or into the
+     enclosing batch's buffer *)
+  Definition commit_db (outer inner : trie) : dbT * option exn :=
+    match t_db outer with
+    | DPlain _ => let '(sc', err) := scommit (t_prune outer) (inner_scratch inner) in (DPlain (wrapped sc'), err)
+    | DScratch osc => (DScratch (sreplay (t_prune outer) (cache (inner_scratch inner)) osc), None)
+    end.
+
   Definition batch_commit (outer inner : trie) : result unit * trie :=
-    let '(sc', err) := scommit (t_prune outer) (inner_scratch inner) in
-    let outer1 := with_db outer (DPlain (wrapped sc')) in
+    let '(db', err) := commit_db outer inner in
+    let outer1 := with_db outer db' in
     match err with
     | Some e => (Err e, outer1)
     | None =>
@@ -724,7 +737,10 @@ Section WithHash.
 
   (* the block was left by an exception *)
   Definition batch_abort (outer inner : trie) : trie :=
-    with_db outer (DPlain (wrapped (sabort (inner_scratch inner)))).
+    match t_db outer with
+    | DPlain _ => with_db outer (DPlain (wrapped (sabort (inner_scratch inner))))
+    | DScratch _ => outer          (* the enclosing buffer was never written by the inner block *)
+    end.
 
   Definition at_root (t : trie) (h : bytes) : result trie :=
     if t_prune t then Err EValidation else Ok (mkTrie (t_db t) h false [] None).
